@@ -417,6 +417,24 @@ def rule_laws(ctx):
                f'must be evaluated, not only one subclass', c.node, fm)
 
 
+def rule_quantum(ctx, rid='C15.laws'):
+    ctx.rule(rid, 'round, roundup and trunc return the quantum times floor(x/q + .5), ceil(x/q), floor(x/q): the float path is that product '
+                  '(correct side for negative x as well), nothing hand-made from modf or int truncation')
+    m = ctx.repo.module('sc3.base.builtins')
+    want = {'round': ('floor', 'x / quant + 0.5'), 'roundup': ('ceil', 'x / quant'), 'trunc': ('floor', 'x / quant')}
+    for name, (fn, arg) in want.items():
+        f = m.functions.get(name)
+        ctx.require(f is not None, rid, f'{name} vanished')
+        x, q = f.params[0], f.params[1]
+        arg_ = arg.replace('x', x).replace('quant', q)
+        forms = (f'{fn}({arg_}) * {q}', f'{q} * {fn}({arg_})', f'math.{fn}({arg_}) * {q}', f'{q} * math.{fn}({arg_})')
+        rets = [norm(r.value) for r in walk_local(f.node) if isinstance(r, ast.Return) and r.value is not None]
+        ok = any(any(fm in r for fm in forms) for r in rets) and not any('modf' in norm(c.func) or norm(c.func) == 'int' for c in U.calls(f.node))
+        ctx.ob(rid, f'{m.name}:{name}:defining-form', ok,
+               f'{name} must return {forms[0]} on its float path (returns found: {rets}): a hand-made ceiling/floor that truncates toward zero '
+               f'puts negative arguments on the wrong side', f.node, m)
+
+
 def rule_overloadable(ctx):
     ctx.rule('C15.sel', 'no operator method hands a selector that Python cannot overload (operator.not_, truth, is_, is_not) to a compose hook: '
                         'applied element-wise by the list algebra it answers about the object, not about its value')
@@ -487,9 +505,13 @@ def run(ctx):
     rule_laws(ctx)
     rule_wrap(ctx)
     rule_overloadable(ctx)
+    rule_quantum(ctx)
 
 
 MUTANTS = [
+    dict(rule='C15.laws', name='roundup with a hand-made ceiling that truncates toward zero (seed C12-h)', file='sc3/base/builtins.py',
+         old="        return float(ceil(x / quant) * quant)",
+         new="        frac, whole = math.modf(x / quant)\n        if frac != 0.:\n            whole += 1.\n        return float(whole * quant)"),
     dict(rule='C15.sel', name='not_ composes with operator.not_ (fix reverted)', file='sc3/base/absobject.py',
          old="        return self._compose_unop(bi.not_)  # not", new="        return self._compose_unop(operator.not_)  # not"),
     dict(rule='C15.laws', name='integer modulo fixed up by the sign of the dividend (seed C15-f)', file='sc3/base/builtins.py',
